@@ -118,6 +118,7 @@ impl Registry {
         if let Some(v) = self.canonicalize_exact(name, depth) {
             return Some(v);
         }
+        let full_name = name;
         for &(ref prefix, ref value) in &self.prefixes {
             if let Some(name) = name.strip_prefix(prefix) {
                 if let Some(canonicalized) = self.canonicalize_exact(name, depth) {
@@ -135,7 +136,13 @@ impl Registry {
                             prefix = other;
                         }
                     }
-                    return Some(format!("{}{}", prefix, canonicalized));
+                    let canonical = format!("{}{}", prefix, canonicalized);
+                    // The longer spelling can collide with another unit; it
+                    // is only used if it denotes what the name denotes.
+                    if self.lookup_with_prefix(&canonical) != self.lookup_with_prefix(full_name) {
+                        return Some(full_name.to_owned());
+                    }
+                    return Some(canonical);
                 }
             }
         }
